@@ -252,9 +252,12 @@ def comp_op(info: Info, members: List[str]):
 
 
 @st.composite
-def step(draw, info: Info, kinds):
+def step(draw, info: Info, kinds, focus=None):
     k = draw(st.sampled_from(kinds))
     subs = info.subs
+    if focus:
+        # long histories on ONE envelope matter: its members are drawn four times as often
+        subs = list(subs) + [f for f in focus if f in info.subs] * 3
     ce = draw(st.sampled_from(sorted(info.ce_members))) if info.ce_members else None
     mem = info.ce_members.get(ce, []) if ce else []
 
@@ -337,6 +340,8 @@ def step(draw, info: Info, kinds):
             return d
         if call.startswith("env_"):
             e = f"e{draw(st.integers(0, len(info.spec['envs']) - 1))}"
+            if focus and draw(st.integers(0, 2)) > 0:
+                e = focus[0].split(".")[0]
             d = dict(k="struct", call=call, env=e)
             if call == "env_reorder":
                 order = draw(st.permutations([e + ".f", e + ".p"]))
@@ -359,7 +364,7 @@ def step(draw, info: Info, kinds):
         pool = mem if (ce and draw(st.integers(0, 3)) > 0) else subs
         maxn = {"trace_out": 3, "kraus": 2, "measure": 3, "povm": 2}[k]
         n = draw(st.integers(1, min(maxn, len(pool))))
-        ts = list(draw(st.permutations(pool))[:n])
+        ts = list(dict.fromkeys(draw(st.permutations(pool))))[:n]
         e = entry_for(ts)
         if e is None:
             ts = ts[:1]
@@ -390,8 +395,12 @@ def program_case(draw, kinds, max_steps=4, world_kwargs=None, min_steps=1):
     info = Info(spec, layout)
     n = draw(st.integers(min_steps, max_steps))
     steps = []
+    focus = None
+    if spec["envs"] and draw(st.booleans()):
+        fe = draw(st.integers(0, len(spec["envs"]) - 1))
+        focus = [f"e{fe}.f", f"e{fe}.p"]
     for _ in range(n):
-        s_ = draw(step(info, kinds))
+        s_ = draw(step(info, kinds, focus))
         # histories matter: often address the subsystem the previous step addressed again
         if steps and s_["k"] == "op" and steps[-1]["k"] == "op" and len(s_["targets"]) == 1 and len(steps[-1]["targets"]) == 1 and draw(st.booleans()):
             prev = steps[-1]["targets"][0]
@@ -399,3 +408,97 @@ def program_case(draw, kinds, max_steps=4, world_kwargs=None, min_steps=1):
                 s_ = dict(s_, targets=[prev], entry=steps[-1]["entry"] if draw(st.booleans()) else "state")
         steps.append(s_)
     return dict(spec=spec, layout=layout, contraction=draw(st.booleans()), steps=steps)
+
+
+# ----------------------------------------------------------------------------------------
+# "life cycle" programs: one envelope is prepared, absorbed into a composite product space,
+# released again (non-destructive measurement / custom-state measurement), and re-used. Defects
+# that depend on flags or caches left behind by an earlier phase need exactly such histories.
+# ----------------------------------------------------------------------------------------
+@st.composite
+def lifecycle_case(draw, tail_kinds=("op", "kraus", "measure", "struct", "trace_out", "comp", "resize"), max_tail=3):
+    n_env = draw(st.integers(2, 3))
+    envs = []
+    for _ in range(n_env):
+        fd = draw(st.sampled_from([2, 3]))
+        envs.append(dict(fdim=fd, fock=draw(st.integers(0, fd - 1)), pol=draw(st.sampled_from(["H", "V", "R", "L"]))))
+    customs = [dict(dim=2, label=draw(st.integers(0, 1))) for _ in range(draw(st.integers(0, 2)))]
+    units = [f"e{i}" for i in range(n_env)] + [f"c{i}" for i in range(len(customs))]
+    spec = dict(envs=envs, customs=customs, ces=[units])
+    layout = []
+    # optional pre-existing blocks among the *other* subsystems
+    if draw(st.booleans()):
+        others = [f"e{i}.{x}" for i in range(1, n_env) for x in "fp"] + [f"c{i}" for i in range(len(customs))]
+        k = draw(st.integers(2, min(3, len(others))))
+        layout.append(dict(members=list(draw(st.permutations(others))[:k]), via="ce0", level=draw(st.sampled_from([1, 2])),
+                           state=dict(cls=draw(st.sampled_from(["pure", "mixed", "product", "basis"])), seed=draw(seeds))))
+    info = Info(spec, layout)
+    f, p_, e = "e0.f", "e0.p", "e0"
+    others = [s_ for s_ in info.subs if s_ not in (f, p_)]
+    steps = []
+    # phase 1: prepare the envelope
+    prep = draw(st.sampled_from(["none", "combine", "combine-expand", "combine-flip", "combine-expand-flip", "ops"]))
+    if prep == "ops":
+        steps.append(dict(k="op", entry=draw(st.sampled_from(["state", "env", "ce0"])), targets=[p_], op=draw(pol_op())))
+        steps.append(dict(k="op", entry=draw(st.sampled_from(["state", "env", "ce0"])), targets=[f], op=draw(fock_op(allow_big=False))))
+    if prep.startswith("combine"):
+        steps.append(dict(k="struct", call="env_combine", env=e))
+        if "expand" in prep:
+            steps.append(dict(k="struct", call="env_expand", env=e))
+        if "flip" in prep:
+            steps.append(dict(k="struct", call="env_reorder", env=e, order=[p_, f]))
+    # phase 2: absorb into a composite product space
+    partner = draw(st.sampled_from(others))
+    absorb = draw(st.sampled_from(["ce_combine", "comp", "kraus", "ce_reorder"]))
+    member = draw(st.sampled_from([f, p_]))
+    if absorb == "comp" and info.kind[partner] == info.kind[member] == "pol":
+        steps.append(dict(k="op", entry="ce0", targets=list(draw(st.permutations([member, partner]))), op=dict(type="comp:" + draw(st.sampled_from(["CX", "CZ", "SWAP"])))))
+    elif absorb == "comp" and info.kind[partner] == info.kind[member] == "fock":
+        steps.append(dict(k="op", entry="ce0", targets=list(draw(st.permutations([member, partner]))), op=dict(type="comp:BS", params=dict(eta=draw(angle)))))
+    elif absorb == "kraus":
+        steps.append(dict(k="kraus", entry="ce0", targets=list(draw(st.permutations([member, partner]))), kseed=draw(seeds), nops=draw(st.integers(1, 3)), unitary=False))
+    else:
+        steps.append(dict(k="struct", call=absorb if absorb.startswith("ce_") else "ce_combine", ce="ce0", members=list(draw(st.permutations([member, partner])))))
+    if draw(st.booleans()):
+        steps.append(dict(k="struct", call="ce_expand", ce="ce0", members=[member]))
+    # phase 3: release without destroying
+    rel = draw(st.sampled_from(["measure-both", "measure-both", "measure-one", "measure-partner", "none"]))
+    if rel == "measure-both":
+        steps.append(dict(k="measure", entry=draw(st.sampled_from(["ce0", "state"])), targets=[draw(st.sampled_from([f, p_]))], sep=False, destructive=False,
+                          script=draw(st.lists(st.integers(0, 5), max_size=3))))
+    elif rel == "measure-one":
+        steps.append(dict(k="measure", entry=draw(st.sampled_from(["ce0", "state"])), targets=[draw(st.sampled_from([f, p_]))], sep=True, destructive=draw(st.booleans()),
+                          script=draw(st.lists(st.integers(0, 5), max_size=3))))
+    elif rel == "measure-partner":
+        steps.append(dict(k="measure", entry="ce0", targets=[partner], sep=True, destructive=False, script=draw(st.lists(st.integers(0, 5), max_size=3))))
+    # phase 4: re-use
+    for _ in range(draw(st.integers(1, 3))):
+        reuse = draw(st.sampled_from(["env_combine", "env_kraus_one", "env_kraus_both", "env_trace_both", "ce_multi", "env_op", "resize", "env_povm", "ce_kraus_mix", "remeasure"]))
+        other = draw(st.sampled_from(others))
+        if reuse == "env_combine":
+            steps.append(dict(k="struct", call="env_combine", env=e))
+        elif reuse == "env_kraus_one":
+            steps.append(dict(k="kraus", entry="env", targets=[draw(st.sampled_from([f, p_]))], kseed=draw(seeds), nops=draw(st.integers(1, 3)), unitary=False))
+        elif reuse == "env_kraus_both":
+            steps.append(dict(k="kraus", entry="env", targets=list(draw(st.permutations([f, p_]))), kseed=draw(seeds), nops=draw(st.integers(1, 3)), unitary=False))
+        elif reuse == "env_trace_both":
+            steps.append(dict(k="trace_out", entry="env", targets=list(draw(st.permutations([f, p_])))))
+        elif reuse == "ce_multi":
+            steps.append(dict(k=draw(st.sampled_from(["kraus", "trace_out"])), entry="ce0", targets=list(draw(st.permutations([draw(st.sampled_from([f, p_])), other]))),
+                              kseed=draw(seeds), nops=2, unitary=False))
+        elif reuse == "env_op":
+            t = draw(st.sampled_from([f, p_]))
+            steps.append(dict(k="op", entry=draw(st.sampled_from(["env", "state", "ce0"])), targets=[t], op=draw(op_for_kind(info.kind[t], allow_big=False))))
+        elif reuse == "resize":
+            steps.append(dict(k="resize", entry=draw(st.sampled_from(["state", "env", "ce0"])), target=f, n=draw(st.integers(1, 5))))
+        elif reuse == "env_povm":
+            steps.append(dict(k="povm", entry=draw(st.sampled_from(["env", "state", "ce0"])), targets=[draw(st.sampled_from([f, p_]))], pseed=draw(seeds), nops=2,
+                              projective=draw(st.booleans()), destructive=False, partial=True, script=draw(st.lists(st.integers(0, 5), max_size=2))))
+        elif reuse == "ce_kraus_mix":
+            steps.append(dict(k="kraus", entry="ce0", targets=[draw(st.sampled_from([f, p_]))], kseed=draw(seeds), nops=2, unitary=False))
+        else:
+            steps.append(dict(k="measure", entry=draw(st.sampled_from(["state", "env", "ce0"])), targets=[draw(st.sampled_from([f, p_]))], sep=draw(st.booleans()), destructive=False,
+                              script=draw(st.lists(st.integers(0, 5), max_size=2))))
+    for _ in range(draw(st.integers(0, max_tail))):
+        steps.append(draw(step(info, list(tail_kinds), [f, p_])))
+    return dict(spec=spec, layout=layout, contraction=draw(st.booleans()), steps=steps, family="lifecycle")
